@@ -225,7 +225,7 @@ def plan_c04(ctx):
 
 
 def plan_c11(ctx):
-    r = standard(ctx, [dict(module='MC_Lookup')],
+    r = standard(ctx, [dict(module='MC_Lookup'), dict(module='MC_Lon')],
                  rule='ring scenarios enumerated by MC_Lookup (7 resolution classes x 5 location classes x 7 subdivisions x closed/open) '
                       'instantiated with real cells, plus every cell of res 0..2 (3) x all subdivisions. distinct_nontrivial = calls',
                  assumptions=['orientation / containment / pole contact measured by the independent ring oracle of harness/src/geom.rs'])
